@@ -349,8 +349,8 @@ def h_header(sym):
 
 _H = [
     Harness('send_setpoint[+]', h_setpoint, quick=dict(xmode='off'), goals=('sent', 'refused')),
-    Harness('send_setpoint[x,roll]', h_setpoint, quick=dict(xmode='roll'), goals=('sent', 'refused'), timeout=(300, 900)),
-    Harness('send_setpoint[x,pitch]', h_setpoint, quick=dict(xmode='pitch'), goals=('sent', 'refused'), timeout=(300, 900)),
+    Harness('send_setpoint[x,roll]', h_setpoint, quick=dict(xmode='roll'), goals=('sent', 'refused'), timeout=(600, 1800), per_path=400.0),
+    Harness('send_setpoint[x,pitch]', h_setpoint, quick=dict(xmode='pitch'), goals=('sent', 'refused'), timeout=(600, 1800), per_path=400.0),
     Harness('notify_setpoint_stop', h_notify_stop, goals=('sent', 'refused')),
     Harness('stop_setpoint', h_stop, goals=('sent',)),
     Harness('velocity_world', h_velocity_world, goals=('sent', 'refused')),
